@@ -92,7 +92,7 @@ func enclosingFunc(file *ast.File, pos token.Pos) string {
 }
 
 func rulePR1(c *Ctx) *rule {
-	r := &rule{ID: "PR1", Engine: "E6", Floor: 6,
+	r := &rule{ID: "PR1", Engine: "E6", Floor: 3,
 		Statement: "wherever the parser tests X.Is(token.ERROR), the error returned from that arm is built from X.Value — the value of the very token that was tested — and the arm does return",
 		Necessity: "the lexer's ERROR token is the only carrier of 'Line n' and the quoted line; substituting another token's Value loses the location (the whole message becomes e.g. '(')"}
 	p := c.typPkg("parser")
@@ -179,7 +179,7 @@ func rulePR1(c *Ctx) *rule {
 }
 
 func rulePR2(c *Ctx) *rule {
-	r := &rule{ID: "PR2", Engine: "E6", Floor: 6,
+	r := &rule{ID: "PR2", Engine: "E6", Floor: 1,
 		Statement: "in every illegalToken{encountered: X, line: getLine(Y)} literal, X and Y are the same token",
 		Necessity: "the message cites encountered.Line and quotes `line`; if they come from different tokens the quoted text is not the cited line"}
 	p := c.typPkg("parser")
@@ -312,7 +312,7 @@ func tokenConst(c *Ctx, name string) int64 {
 }
 
 func ruleLX1(c *Ctx) *rule {
-	r := &rule{ID: "LX1", Engine: "E4", Floor: 18,
+	r := &rule{ID: "LX1", Engine: "E4", Floor: 8,
 		Statement: "a lexer state ends the scan (returns a nil next state) only as the result of l.error(...), which sends an ERROR token, or directly after emit(token.EOF); the run loop closes the token channel only then",
 		Necessity: "a scan that stops silently hands the parser zero-value (EOF) tokens: truncated input is accepted as a complete spokfile, or the parser waits for a closing token that never comes"}
 	states, emit, errM := c.lexStates()
@@ -352,6 +352,29 @@ func ruleLX1(c *Ctx) *rule {
 		key := "lexer.(*Lexer).error sends ERROR"
 		okSend := false
 		errTok := tokenConst(c, "ERROR")
+		// through a helper shared with emit: a module callee that sends, called with the constant ERROR
+		for _, site := range callSites(errM) {
+			callee := site.Common().StaticCallee()
+			if callee == nil || !inModule(callee) {
+				continue
+			}
+			sends := false
+			for _, b := range callee.Blocks {
+				for _, in := range b.Instrs {
+					if _, ok := in.(*ssa.Send); ok {
+						sends = true
+					}
+				}
+			}
+			if !sends {
+				continue
+			}
+			for _, a := range site.Common().Args {
+				if n, ok := constInt(a); ok && n == errTok && isNamed(a.Type(), modPath+"/token", "Type") {
+					okSend = true
+				}
+			}
+		}
 		for _, b := range errM.Blocks {
 			for _, in := range b.Instrs {
 				if sd, ok := in.(*ssa.Send); ok {
